@@ -124,8 +124,61 @@ func seekOff(k, l int) int64 {
 var decSize = reflect.TypeOf(csproto.Decoder{}).Size()
 
 func stateKey(d *csproto.Decoder, base uintptr) string {
-	return string(unsafe.Slice((*byte)(unsafe.Pointer(d)), decSize))
+	if len(ptrWords) == 0 {
+		return string(unsafe.Slice((*byte)(unsafe.Pointer(d)), decSize))
+	}
+	// fields holding pointers (a scratch slice, a cached string ...) cannot be compared as raw words: every fresh
+	// decoder instance allocates its own, and the BFS would never see the same state twice. A pointer into the input
+	// buffer is replaced by its offset, any other pointer by a constant (lengths and capacities stay as they are).
+	var tmp [256]byte
+	b := tmp[:decSize]
+	copy(b, unsafe.Slice((*byte)(unsafe.Pointer(d)), decSize))
+	for _, off := range ptrWords {
+		w := (*uintptr)(unsafe.Pointer(&b[off]))
+		switch {
+		case *w == 0:
+		case *w >= base && *w <= base+4096:
+			*w -= base
+		default:
+			*w = 1
+		}
+	}
+	return string(b)
 }
+
+// ptrWords: offsets of the pointer-carrying words of the Decoder struct other than the input slice `p` itself (which is
+// constant during one exploration). Empty for the Decoder as it is today (ints only besides p).
+var ptrWords = func() (out []uintptr) {
+	t := reflect.TypeOf(csproto.Decoder{})
+	if t.Size() > 256 {
+		return nil
+	}
+	var walk func(t reflect.Type, base uintptr)
+	walk = func(t reflect.Type, base uintptr) {
+		switch t.Kind() {
+		case reflect.Ptr, reflect.UnsafePointer, reflect.Map, reflect.Chan, reflect.Func, reflect.Slice, reflect.String:
+			out = append(out, base) // first word is the data pointer
+		case reflect.Interface:
+			out = append(out, base, base+unsafe.Sizeof(uintptr(0)))
+		case reflect.Struct:
+			for i := 0; i < t.NumField(); i++ {
+				walk(t.Field(i).Type, base+t.Field(i).Offset)
+			}
+		case reflect.Array:
+			for i := 0; i < t.Len(); i++ {
+				walk(t.Elem(), base+uintptr(i)*t.Elem().Size())
+			}
+		}
+	}
+	for i := 0; i < t.NumField(); i++ {
+		f := t.Field(i)
+		if f.Name == "p" && f.Type.Kind() == reflect.Slice {
+			continue
+		}
+		walk(f.Type, f.Offset)
+	}
+	return out
+}()
 
 // Canonical key (quick tier, buffers of the longest length class only; every other buffer and the whole thorough
 // tier use the exact key above). The Decoder remembers where the key read by the last DecodeTag starts and ends
@@ -153,13 +206,13 @@ func canonKey(d *csproto.Decoder, base uintptr) string {
 	if ke-ks > 1 || ke < ks {
 		return stateKey(d, base)
 	}
-	var tmp [128]byte
-	b := tmp[:decSize]
-	copy(b, unsafe.Slice((*byte)(unsafe.Pointer(d)), decSize))
+	b := []byte(stateKey(d, base))
 	*(*int)(unsafe.Pointer(&b[keyStartOff])) = 0
 	*(*int)(unsafe.Pointer(&b[keyEndOff])) = 0
 	return string(b)
 }
+
+const maxStatesPerBuffer = 20000
 
 type reporter interface {
 	Fail(sig, id string, detail any)
@@ -603,6 +656,12 @@ func (c *ctx) explore(buf []byte) (states, transitions int64) {
 			}
 			k := stateKey(d, c.base)
 			if !seen[k] {
+				if len(seen) >= maxStatesPerBuffer {
+					// far beyond anything the real Decoder reaches (a few hundred states per buffer): some field takes a
+					// new value on every call; stop growing this buffer's graph and say so instead of running forever
+					c.sh.Count("state_cap_hit", 1)
+					continue
+				}
 				seen[k] = true
 				h := append(append([]int{}, s.hist...), oi)
 				queue = append(queue, st{h})
